@@ -3,7 +3,10 @@
 import json, os, glob, re
 ROOT = os.path.dirname(os.path.dirname(os.path.abspath(__file__)))
 rows = []
-for d in sorted(glob.glob(os.path.join(ROOT, "seeded", "*"))):
+def _key(d):
+    b = os.path.basename(d); a, _, k = b.partition("-")
+    return (a, int(k) if k.isdigit() else 0)
+for d in sorted(glob.glob(os.path.join(ROOT, "seeded", "*")), key=_key):
     m = json.load(open(os.path.join(d, "meta.json")))
     det = m["detection"]
     first = ""
